@@ -423,10 +423,16 @@ func (g *gen) valueFor(oi *optInfo, valid bool) string {
 	return g.pick(wordPool)
 }
 
+// utf8Edges: lead and continuation bytes around every validity boundary of UTF-8
+var utf8Edges = []byte{0x7f, 0x80, 0xbf, 0xc0, 0xc1, 0xc2, 0xdf, 0xe0, 0xa0, 0x9f, 0xe1, 0xec, 0xed, 0xee, 0xef, 0xf0, 0x90, 0x8f, 0xf1, 0xf3, 0xf4, 0xf5, 0xff, '-', '=', 'a'}
+
 func (g *gen) randBytes() string {
 	n := g.r.Intn(6)
 	bs := make([]byte, n)
 	alphabet := []byte{'-', '-', '=', 'a', 'v', 0xc3, 0xa9, 0xff, '\n', ' ', 0xe6, 0x97, 0xa5, '1', '.', 0, '\t'}
+	if g.r.Intn(4) == 0 {
+		alphabet = utf8Edges
+	}
 	for i := range bs {
 		bs[i] = alphabet[g.r.Intn(len(alphabet))]
 	}
